@@ -92,7 +92,9 @@ def run_model(schema_path, ops, timeout=1800):
 
 def run_go(binary, ops, measure=False, timeout=1800, vmem_kb=8000000):
     env = "ZZ_MEASURE=1 " if measure else ""
-    return run_lines("ulimit -v %d; %sexec %s" % (vmem_kb, env, binary), ops, timeout=timeout)
+    # a decoder that dies (fatal out-of-memory) is restarted after the op in flight; misaligned reads under the known C04 finding
+    # do that often, so the budget is generous
+    return run_lines("ulimit -v %d; %sexec %s" % (vmem_kb, env, binary), ops, timeout=timeout, max_crashes=5000)
 
 
 def parse_kv(line):
